@@ -213,7 +213,7 @@ func c03Shapes(kind string, full bool) *explore.Scenario {
 // c03Early: the handler fails after k of n messages while the caller is still sending.
 func c03Early(n, k, capn int, cprog string, bound int) *explore.Scenario {
 	fam := "C03/early-error"
-	c := streamCase{"Bidi", cprog, "retearly", n, k}
+	c := streamCase{"Bidi", cprog, "retearly", n, k, 0}
 	return &explore.Scenario{
 		Name: fmt.Sprintf("C03/early-error/%s/n=%d/k=%d/cap=%d", cprog, n, k, capn), Family: fam, Prop: "C03", Bound: bound,
 		Run: func() {
